@@ -632,13 +632,58 @@ def write_if_changed(path, text):
     return True
 
 
+def translate_stdlib(repo, names):
+    """data/stdlib_complete.txt (include_str! in emission.rs) as Coq byte strings, in chunks (one huge literal overflows
+    coqc's stack); the splitting into lines is done by the model of str::lines (SrcStdlibP.v), not here"""
+    src = open(os.path.join(repo, 'src/generator/emission.rs')).read()
+    m = re.search(r'include_str!\(\s*"([^"]+)"\s*\)', src)
+    if not m:
+        raise TranslateError('include_str! of the name table not found in emission.rs')
+    path = os.path.normpath(os.path.join(repo, 'src/generator', m.group(1)))
+    raw = open(path, 'rb').read()
+    if not re.search(r'content\s*\.\s*lines\(\)\s*\.\s*map\(\|s\|\s*s\.to_string\(\)\)\s*\.\s*collect\(\)', src):
+        raise TranslateError('load_stdlib_complete no longer splits with content.lines().map(|s| s.to_string()).collect()')
+    if not re.search(r'splitn\(\s*2\s*,\s*\'\.\'\s*\)', src) or 'unwrap_or("builtins")' not in src or 'unwrap_or("object")' not in src:
+        raise TranslateError('get_random_module no longer splits with splitn(2, \'.\') / builtins / object')
+    out = ["(* GENERATED on every run by tools/gen_src.py from %s (include_str! in src/generator/emission.rs) *)" % os.path.relpath(path, repo),
+           "From Coq Require Import List NArith Bool Init.Byte.", "Import ListNotations.",
+           "Inductive bstr := BS (l : list byte).", "Definition unBS (b : bstr) : list byte := match b with BS l => l end.",
+           "Declare Scope bs_scope.", "Delimit Scope bs_scope with bs.", "String Notation bstr BS unBS : bs_scope.", "", "Module Src."]
+    chunks, cur = [], []
+    def flush():
+        if cur:
+            chunks.append(''.join(cur)); del cur[:]
+    # bytes that a Coq string literal cannot carry verbatim go out as separate numeric chunks
+    items = []
+    for b in raw:
+        if b == 34 or b >= 128 or (b < 32 and b != 10):
+            flush(); items.append(('n', b))
+        else:
+            cur.append(chr(b))
+            if len(cur) >= 6000:
+                flush()
+        while chunks:
+            items.append(('s', chunks.pop(0)))
+    flush()
+    while chunks:
+        items.append(('s', chunks.pop(0)))
+    defs = []
+    for kind, v in items:
+        defs.append('(map Byte.to_N (unBS "%s"%%bs))' % v if kind == 's' else '[%d%%N]' % v)
+    out.append("Definition stdlib_raw_chunks : list (list N) := [\n%s]." % ';\n'.join(defs))
+    out.append("Definition stdlib_raw : list N := concat stdlib_raw_chunks.")
+    out.append("Definition stdlib_raw_len : N := %d." % len(raw))
+    out.append("End Src.")
+    return '\n'.join(out) + '\n'
+
+
 def main():
     repo = sys.argv[1] if len(sys.argv) > 1 else '/repo'
     out = sys.argv[2] if len(sys.argv) > 2 else os.path.join(os.path.dirname(os.path.abspath(__file__)), '..', 'coq', 'gen')
     os.makedirs(out, exist_ok=True)
     names = cpython_names()
     status = 0
-    for fname, fn in (('SrcOpcodes.v', translate_opcodes), ('SrcCanEmit.v', translate_can_emit), ('SrcConsts.v', translate_consts)):
+    for fname, fn in (('SrcOpcodes.v', translate_opcodes), ('SrcCanEmit.v', translate_can_emit), ('SrcConsts.v', translate_consts), ('SrcStdlib.v', translate_stdlib)):
         try:
             text = fn(repo, names)
         except (TranslateError, KeyError, ValueError, IndexError) as e:
